@@ -620,28 +620,29 @@ def r7(ctx, facts):
                 is_none = (st[2][0] == "agg" and st[2][1][0] == "adt" and st[2][1][2] == "None") or (st[2][0] == "use" and enum_variant_of_operand(b, st[2][1]) == "None")
                 if is_none:
                     resets.append(bb)
+    # the gate: a branch whose outcome depends on what SUPPORTED listed and which decides whether the option is inserted
+    sup = {l for l in range(len(b.locals)) if b.local_name(l) == "supported_compression"}
     gates = []
-    for bb in b.live_blocks:
+    for bb in sorted(b.live_blocks):
         t = b.term(bb)
-        if t[0] != "switch":
+        if t[0] != "switch" or t[1][0] not in ("c", "m"):
             continue
-        e = df.expr_of_operand(t[1])
-        flip = False
-        while e[0] == "not":
-            e, flip = e[1], not flip
-        if e[0] != "call":
+        locs, _, _ = backward_slice(b, t[1])
+        if not (locs & sup):
             continue
-        for sw, tt, ff in truth_edges(b, df, e):
-            if ins[0].bb in b.reachable_from(tt) and ins[0].bb not in b.reachable_from(ff):
-                gates.append((sw, tt, ff))
-    gates = sorted(set(gates))
-    r.instance("compression-requested-only-if-supported", bool(gates), "the COMPRESSION startup option must be inserted only where the server listed the algorithm", ins[0].span)
+        targets = sorted({tg for _, tg in t[2]} | {t[3]})
+        yes = [tg for tg in targets if ins[0].bb in b.reachable_from(tg)]
+        no = [tg for tg in targets if tg not in yes]
+        if yes and no:
+            gates.append((bb, tuple(yes), tuple(no)))
+    r.instance("compression-requested-only-if-supported", bool(gates) and bool(sup),
+               "the COMPRESSION startup option must be inserted only on a branch decided by what the server's SUPPORTED listed", ins[0].span)
     ok = bool(gates)
-    for sw, tt, ff in gates:
-        # the innermost gate only: its false side must not be the "compression not configured" side
-        if any(r2 in b.reachable_from(ff) for r2 in resets) or not resets:
-            if starts[0].bb in dj.feasible_reach_edge(sw, ff, removed_nodes=resets):
-                ok = False
+    for sw, yes, no in gates:
+        for ff in no:
+            if any(r2 in b.reachable_from(ff) for r2 in resets) or not resets:
+                if starts[0].bb in dj.feasible_reach_edge(sw, ff, removed_nodes=resets):
+                    ok = False
     r.instance("unsupported-algorithm-is-forgotten", ok and bool(resets),
                "when the requested compression is not supported, connection.config.compression must be set to None before STARTUP: otherwise every later frame is compressed although STARTUP negotiated none", starts[0].span)
 
